@@ -11,8 +11,15 @@ TRUSTED = [
     "tryParseFieldsFilter at token level; makeFetchReq as a pure function of the filter (tied to /repo by the correspondence run, not verified code)",
     "Go harness harness/cmd/hC20: generators, the independent JSON oracle (encoding/json token stream with UseNumber; values "
     "canonicalised: numbers as exact rationals, strings decoded, nested keys sorted), rendering of token lists as query text",
-    "insane-json decode/encode fidelity (string escaping, number text, nested containers), the SeqQL lexer/quoting, the "
-    "search expression parser and the gRPC/bulk plumbing are NOT modelled: they are exercised by the run (test, not proof)",
+    "hand-written model props/C20/coq/ModelLex.v of the part of the SeqQL lexer (parser/seqql.go: lexer.Next comment skip, "
+    "unquotePrefix/unquoteChar closing-quote search, strconv.QuotedPrefix for raw strings) that decides at which BYTE of the "
+    "query text the first top-level `|` token starts; the closing-quote search is a position-equivalent abstraction of the "
+    "fast/slow path of unquotePrefix (backslash + same quote or backslash = 2 bytes, everything else 1 byte; argued in the file "
+    "header), tied to /repo by the class pipe-text on generated texts with every escape spelling",
+    "insane-json decode/encode fidelity (string escaping, number text, nested containers), the tokens of the pipe section "
+    "(word / composite-name rules, decoding of quoted names: supplied per case by the harness, which renders the text from the "
+    "tokens), the search expression parser (flag `valid`, by construction of the generated expression) and the gRPC/bulk "
+    "plumbing are NOT modelled: they are exercised by the run (test, not proof)",
 ]
 ASSUME = [
     "values are opaque to the model: equality of values is decided by the harness oracle (JSON equality, numbers by value)",
@@ -28,6 +35,10 @@ ASSUME = [
     "field names are arbitrary byte strings of any length (ids in the model); the run uses names of 0, 1, 62-65, 127, 128, "
     "255, 300 and 517 bytes (ASCII label-like and multi-byte UTF-8), present in documents and listed in filters",
     "documents have fewer than 2^24 top-level fields (width of insane-json's index and dirty-sequence bit fields)",
+    "lexical theorems (C20_pipe_start_written, C20_pipe_found_lexically) speak about search-expression texts that are lexically "
+    "closed: written as a sequence of plain bytes (no | # quote), double-/single-quoted values (any escapes), raw strings and "
+    "comment lines ending in a newline. A text that ends inside a comment or inside a quote whose partner is in the pipe text "
+    "swallows the written `|` (Example C20_lex_unclosed_swallows_pipe; the real lexer does the same: classes unclosed-*)",
     "documents with duplicate keys are judged by the property text read on (key, value) pairs: every occurrence of a "
     "listed key is kept (allow) / removed (except); stream dupkeys-* is a permanent regression class (finding repaired by "
     "/repo c998f0f, old algorithm kept as filter_fields_except_v0 with C20_except_dup_keys_v0_refuted)",
@@ -36,6 +47,14 @@ RULE = ("random JSON objects (0..30 top-level fields; strings with every escape 
         "integer/fraction/exponent/big notations; nested arrays/objects; whitespace variants) x field lists (subset, all, "
         "absent only, present+absent, repeated, single, empty) x allow/except, several documents per pooled filter as in one "
         "fetch; duplicate-key documents; query texts with 0/1/2 pipes, malformed lists, keywords as names, quoted names; "
+        "query TEXTS (class pipe-text: real tryParseFieldsFilter; model scans the same bytes) whose search expression holds `|` "
+        "inside double-/single-/back-quoted values (next to escaped quotes, behind an escaped backslash, as ` | fields y`), inside "
+        "`#` comment lines before and behind the real pipe and between pipe tokens, `|` attached to tokens without spaces, 0/1/2 "
+        "pipes, random pipe tokens, expressions that do not parse, expressions ending in an unclosed comment / a quote without "
+        "partner; spec: filter = the written first pipe's = the one the real code derives from `*` + the text from the written `|`; "
+        "class page-search-lex: real Ingestor.Search on the real cluster (stores' GrpcV1.Fetch honouring the filter) with such "
+        "expressions selecting every document (11 fixed incl. the C20-m12 witnesses + random), documents must be the projections "
+        "of those returned for the same expression without the pipe; "
         "pages through a real proxy with 2-3 store shards, documents spread over the shards, empty-named members, names that "
         "are prefixes of each other, repeated names in the pipe (search with pipe, proxy fetch with filter, Fetch on every "
         "store with filter; active and sealed; offsets/sizes/orders); makeFetchReq called for 1-4 sources with ONE filter "
@@ -46,7 +65,7 @@ RULE = ("random JSON objects (0..30 top-level fields; strings with every escape 
         "disjoint ID sets), preceded by Fetches whose stream fails after k = 0, 1, 3, 9 documents with the context cancelled "
         "(in-process stream on every store, and the real gRPC client through the proxy), outputs de-duplicated per (request, "
         "document, output). non-trivial = document of >= 3 fields where the filter removes at least one field and keeps at least one / "
-        "pipe with >= 2 names / page of >= 2 documents / request set for >= 2 sources from a list with a repeated name; distinct by input")
+        "pipe with >= 2 names / query text with a `|` byte inside the search expression and a well-formed pipe / page of >= 2 documents / request set for >= 2 sources from a list with a repeated name; distinct by input")
 
 
 def harness_args(tier, seed, outdir):
